@@ -131,7 +131,19 @@ func (e StoreTo) String() string {
 func (e StoreTo) Match(in ssa.Instruction) bool {
 	switch st := in.(type) {
 	case *ssa.Store:
-		if !glob(e.Addr, Path(st.Addr)) {
+		// the one initialising store of a read-only local is a name binding (the local renders as that value),
+		// not a store to the location the value came from
+		addr := ""
+		if a, ok := st.Addr.(*ssa.Alloc); ok && inlineLocals && readOnlyInit(a) != nil && a.Comment != "" && !isParamName(a.Parent(), a.Comment) {
+			// …so as a store target it is matched under its own name only
+			addr = a.Comment
+			if renameLocals {
+				addr += "ʀ"
+			}
+		} else {
+			addr = Path(st.Addr)
+		}
+		if !glob(e.Addr, addr) {
 			return false
 		}
 		return e.Val == "" || glob(e.Val, Path(st.Val))
